@@ -31,7 +31,7 @@ func init() {
 		},
 		Run:            c13Run,
 		Floor:          func(tier string) int { return 3000 },
-		Rule:           "(histories may contain a Run that conforms in shape but fails inside a node; defaults may be empty; InputDimSize must agree with InputShapes on every axis) (one case in sixteen: negative / huge dim_values - acceptance derived from what InputShapes reports, 'reported is enforced') signatures with 1..3 graph inputs of rank 1..4 whose dimensions are each fixed / symbolic / unspecified (symbolic non-leading axes included), some inputs shadowed by initializers, some declared but not consumed by any node; identity-like graphs (one Relu per consumed input) so that acceptance is observable as a correct value; supplied sets: a name omitted, permuted insertion order, extra names (also named like a pure initializer), a rank from 0..5, one axis resized to {declared-1, declared+1, 1, 7}, the tensor object of an earlier conforming Run reshaped in place by its owner; each supplied set is judged on a freshly loaded model, after one conforming Run, or after conforming Run + rejected empty set + conforming Run on the same Model (acceptance must not depend on earlier calls). Oracle (Appendix A.12): accepted iff every non-initializer input is present with the declared rank and matching fixed dimensions; on rejection Run returns an error and nil outputs, the operator proxy sees no apply event and no supplied tensor changes; on acceptance every output equals relu(input) and extra tensors change nothing; a supplied value for a shadowed input replaces the initializer. In a quarter of the cases the caller scribbles over the values returned by InputShapes()/InputNames() before the Run. Introspection: InputNames/ParamNames/InputShapes/InputDimSize agree with the declaration and with what Run enforces (dynamic <=> every probed size accepted). Non-trivial = the supplied set deviates from the declaration in exactly one respect or exercises a symbolic/unspecified dimension; distinct = (signature, deviation).",
+		Rule:           "(signatures may have no required input at all and are then run with a nil map; 8% of the declarations leave elem_type out) (histories may contain a Run that conforms in shape but fails inside a node; defaults may be empty; InputDimSize must agree with InputShapes on every axis) (one case in sixteen: negative / huge dim_values - acceptance derived from what InputShapes reports, 'reported is enforced') signatures with 1..3 graph inputs of rank 1..4 whose dimensions are each fixed / symbolic / unspecified (symbolic non-leading axes included), some inputs shadowed by initializers, some declared but not consumed by any node; identity-like graphs (one Relu per consumed input) so that acceptance is observable as a correct value; supplied sets: a name omitted, permuted insertion order, extra names (also named like a pure initializer), a rank from 0..5, one axis resized to {declared-1, declared+1, 1, 7}, the tensor object of an earlier conforming Run reshaped in place by its owner; each supplied set is judged on a freshly loaded model, after one conforming Run, or after conforming Run + rejected empty set + conforming Run on the same Model (acceptance must not depend on earlier calls). Oracle (Appendix A.12): accepted iff every non-initializer input is present with the declared rank and matching fixed dimensions; on rejection Run returns an error and nil outputs, the operator proxy sees no apply event and no supplied tensor changes; on acceptance every output equals relu(input) and extra tensors change nothing; a supplied value for a shadowed input replaces the initializer. In a quarter of the cases the caller scribbles over the values returned by InputShapes()/InputNames() before the Run. Introspection: InputNames/ParamNames/InputShapes/InputDimSize agree with the declaration and with what Run enforces (dynamic <=> every probed size accepted). Non-trivial = the supplied set deviates from the declaration in exactly one respect or exercises a symbolic/unspecified dimension; distinct = (signature, deviation).",
 		RaceInThorough: true,
 		Technique:      "runtime monitoring: acceptance oracle from the declared signature, proxy trace check (no apply before/after a rejection), deep fingerprints of supplied tensors, introspection cross-check",
 		Assumptions:    []string{"element types are not part of the checked signature (the statement speaks of rank and dimensions only)"},
